@@ -269,9 +269,11 @@ def run(prop, tier, seed, replay=None):
         if meta.get("kind") == "hang":
             extra = []
             check_hang(binary, wd, dict(scn=meta["scn"], **{"class": meta["key"].split(":", 1)[1]}), v, prop, notes, extra)
-            for n in notes:
-                log("  note: " + n)
-            return v.finish()
+            if v.violations or v.inconclusive:
+                for n in notes:
+                    log("  note: " + n)
+                return v.finish()
+            # it does not hang (any more): the scenario is judged like any other
         jobs = [("replay", ["-scn", json.dumps(meta["scn"]), "-hangwait", "5s"])]
     elif tier == "quick":
         jobs = [(str(seed * 100 + i), ["-seed", seed * 100 + i, "-exh", 1, "-maxexh", 150, "-n", 40]) for i in range(6)]
